@@ -208,7 +208,7 @@ Variable zpoly : bool -> option Crd -> Z -> Z -> Z -> S.
 Variable solve : Z -> Z -> (Z -> Z -> S) -> (Z -> S) -> result (list S).
 Hypothesis solve_sound : forall k N B y c,
   solve k N B y = Ok c -> Z.of_nat (length c) = k /\ NE k N B y (nthZ c).
-Hypothesis solve_total : forall k N B y, indep k N B -> exists c, solve k N B y = Ok c.
+Hypothesis solve_total : forall k N B y, 0 <= k -> indep k N B -> exists c, solve k N B y = Ok c.
 
 Notation compose := (zernike_compose is0 zpoly).
 Notation bmat := (basis_mat is0 zpoly).
@@ -222,7 +222,7 @@ Lemma fit_total opd mask modes nrm crd :
   indep (klen modes) (npix mask) (bmat mask modes nrm crd) ->
   exists c, fit opd mask modes nrm crd = Ok c.
 Proof. intros Hm Hs Hi. unfold zernike_fit. rewrite Hm. cbn [negb].
-  replace (nr opd * nc opd =? npix mask) with true by lia. cbn [negb]. apply solve_total. exact Hi. Qed.
+  replace (nr opd * nc opd =? npix mask) with true by lia. cbn [negb]. apply solve_total; [lia|exact Hi]. Qed.
 
 Lemma remove_total opd mask modes crd :
   modes_ok modes = true -> nr opd = nr mask -> nc opd = nc mask ->
